@@ -63,6 +63,30 @@ def g_genexp(xs):
     return (y for y in ys)
 
 
+def h_double_if_big(v, k):               # a module-level helper: inlined at its call sites
+    if v > k:
+        return v * 2
+    return v
+
+
+def h_check(k):                           # a helper called as a statement: spliced in place
+    if k < 0:
+        raise ValueError("negative: {}".format(k))
+
+
+def g_helpers(xs, k):                     # helper inlining, list-building loop = comprehension, strings as one unit
+    h_check(k)
+    out = []
+    for x in xs:
+        out.append(h_double_if_big(x, k))
+    label = "n=" + f"{k}"
+    log(label)
+    rest = out
+    if rest:                              # truth value by TYPE MARK (the mark survives `rest = out`)
+        return out
+    raise ValueError(f"empty {label}")
+
+
 PRE = """
 def Py.div (a b : Int) : Option Int := if b == 0 then none else some (if a ≥ 0 && b > 0 then a / b else if a < 0 && b > 0 then -((-a) / b) else 0)
 """
@@ -80,9 +104,12 @@ CASES = [
     (g_loop_bind, "(xs : List Int) (d : Int) : Option Int", {"xs": "xs", "d": "d"},
      dict(match_bind=dict(ok="some {x}", err="none", reraise="none"))),
     (g_genexp, "(xs : List Int) : Option (List Int)", {"xs": "xs"}, dict(genexp="{e}")),
+    (g_helpers, "(xs : List Int) (k : Int) : Option (List Int)", {"xs": "xs", "k": "k"},
+     dict(inline=True, strings="()", skip=["log($x)"], typed=[("[$e for $t in $i]", "list")],
+          truthy={"list": "(!(List.isEmpty {e}))", "xs": "(!(List.isEmpty {e}))"})),
 ]
 LISTS = [[], [1], [2, 4], [3, 1, 4, 1, 5], [6, 2, -9, 0, 7], [4, 6, 8], [-1, 3], [5, 5, 2]]
-KS = [0, 2, 3]
+KS = [0, 2, 3, -1]
 
 
 def lean_list(xs):
@@ -111,7 +138,8 @@ def main():
     text = ["import MenpoModel.Core.PyLoop", "import MenpoModel.Core.PyWhileG", "set_option linter.unusedVariables false", PRE]
     expect = []
     for fn, sig, args, extra in CASES:
-        rules = G.Rules2G(expr=EXPR, truthy=TRUTHY, ret="some ({e})", raise_="none", **extra)
+        extra = dict(extra)
+        rules = G.Rules2G(expr=EXPR, truthy=extra.pop("truthy", TRUTHY), ret="some ({e})", raise_="none", **extra)
         body = G.Translator2G(rules).function(fn, args)
         text.append("def %s %s :=\n%s\n" % (fn.__name__, sig, body))
         names = list(args)
